@@ -107,9 +107,44 @@ Record inv (s : state) : Prop := mkInv {
   i_flight : NoDup (flight s) /\
              forall q, In q (flight s) ->
                        exists qq, nth_error (queues s) q = Some qq /\ q_running qq = true /\ q_cmds qq <> [];
+  i_req : (forall i qi, nth_error (queues s) i = Some qi -> q_running qi = true -> (q_req qi < next_req s)%N) /\
+          (forall i j qi qj, nth_error (queues s) i = Some qi -> nth_error (queues s) j = Some qj ->
+                             q_running qi = true -> q_running qj = true -> q_req qi = q_req qj -> i = j);
   i_apps : forall t a, nth_error (apps s) t = Some a -> app_inv s t a;
   i_queues : forall q qq, nth_error (queues s) q = Some qq -> queue_inv s q qq
 }.
+
+(* ---------------------------------------------------------------- findCommandByReqID *)
+
+Lemma find_req_some l rid : forall k j, find_req l rid k = Some j ->
+  k <= j /\ exists qq, nth_error l (j - k) = Some qq /\ q_running qq = true /\ q_req qq = rid.
+Proof.
+  induction l as [|x l IH]; simpl; intros k j H; [discriminate|].
+  destruct (q_running x && N.eqb (q_req x) rid) eqn:E.
+  - injection H as <-. apply andb_true_iff in E. destruct E as (R & E). apply N.eqb_eq in E.
+    split; [lia|]. rewrite Nat.sub_diag. exists x. simpl. auto.
+  - apply IH in H. destruct H as (Hk & qq & Hn & R & Q). split; [lia|].
+    exists qq. replace (j - k) with (S (j - S k)) by lia. simpl. auto.
+Qed.
+
+Lemma find_req_exists l rid : forall k i qq, nth_error l i = Some qq -> q_running qq = true -> q_req qq = rid ->
+  exists j, find_req l rid k = Some j.
+Proof.
+  induction l as [|x l IH]; intros k [|i] qq Hn R Q; simpl in *; try discriminate.
+  - injection Hn as ->. rewrite R, Q, N.eqb_refl. simpl. eauto.
+  - destruct (q_running x && N.eqb (q_req x) rid); eauto.
+Qed.
+
+(** With distinct request IDs the look-up finds the queue that issued the request,
+    however many contexts and queues come before or after it. *)
+Lemma match_response_ok s q qq :
+  inv s -> nth_error (queues s) q = Some qq -> q_running qq = true -> match_response s q = Some q.
+Proof.
+  intros I Hq R. unfold match_response. rewrite Hq.
+  destruct (find_req_exists (queues s) (q_req qq) 0 q qq Hq R eq_refl) as (j & F). rewrite F.
+  apply find_req_some in F. destruct F as (_ & qj & Hj & Rj & Qj). rewrite Nat.sub_0_r in Hj.
+  f_equal. exact (proj2 (i_req s I) j q qj qq Hj Hq Rj R Qj).
+Qed.
 
 (* ---------------------------------------------------------------- deadlock freedom *)
 
@@ -185,7 +220,8 @@ Proof.
       pose proof (N _ (in_labels_gpu s q Hq)) as Ng. unfold step in Ng. rewrite (i_crash s I), E in Ng.
       apply mem_nat_In in Hq. rewrite Hq in Ng. discriminate.
     - destruct (tosend s); discriminate.
-    - destruct (resp s); [discriminate|]. destruct (nth_error (queues s) n) as [qq|]; [|discriminate].
+    - destruct (resp s); [discriminate|]. destruct (match_response s n) as [q'|]; [|discriminate].
+      destruct (nth_error (queues s) q') as [qq|]; [|discriminate].
       destruct (q_cmds qq); [discriminate|]. destruct (q_running qq); discriminate.
     - destruct Hi as [Hi|Hi]; [|discriminate]. apply Nat.ltb_lt in Hi.
       destruct (nth_error_lt_some _ _ Hi) as (qq & Eq). rewrite Eq in Neng. discriminate.
